@@ -113,9 +113,10 @@ def noise_overlay(rng, plan, spec, tids):
     return p
 
 
-def header_noise_on_child_stderr(plan):
+def header_noise_on_child_stderr(plan, late=False):
     """Does the overlay write a line that parses as a report header to the
-    child's real stderr?  (classification of the known finding only)"""
+    child's real stderr (late: at interpreter shutdown, behind the report)?
+    (classification of the known finding only)"""
     def hdr(text):
         for line in text.splitlines():
             parts = line.strip().split()
@@ -133,6 +134,9 @@ def header_noise_on_child_stderr(plan):
         for v in h.values():
             if isinstance(v, dict):
                 acts += v.get('actions') or []
+    if late:
+        return any(a.get('do') == 'atexit_write' and hdr(a.get('text', ''))
+                   for a in acts)
     return any(a.get('stream') in ('__stderr__', 'fd2') and
                hdr(a.get('text', '')) for a in acts)
 
@@ -365,6 +369,14 @@ def run_case(case):
                         kids = any(e['k'].startswith(('test.', 'layer.'))
                                    and e['pid'] != par for e in wn.events)
                         if kids and header_noise_on_child_stderr(pn):
+                            mech = 'verdict-header-lookalike-noise'
+                        elif kids and \
+                                unterminated_noise_on_child_stderr(pn) and \
+                                header_noise_on_child_stderr(pn, late=True):
+                            # both known mechanisms together: the partial
+                            # line makes the real header unreadable, the
+                            # parent reads on and takes a look-alike that
+                            # was written behind the report for the header
                             mech = 'verdict-header-lookalike-noise'
                         elif kids and wn.verdict is True and \
                                 unterminated_noise_on_child_stderr(pn):
